@@ -47,11 +47,7 @@ pub async fn on_did_change_watched_files(
                     continue;
                 }
                 let config_path = uri_to_file_path(&file_event.uri).unwrap();
-                context
-                    .workspace_manager()
-                    .read()
-                    .await
-                    .add_update_emmyrc_task(context.clone(), config_path);
+                workspace.add_update_emmyrc_task(context.clone(), config_path);
             }
             None => {}
         }
